@@ -12,6 +12,7 @@ import (
 	"strconv"
 	"strings"
 	"testing/iotest"
+	"time"
 	"unicode/utf16"
 	"unicode/utf8"
 
@@ -308,8 +309,13 @@ type pathDef struct {
 	run  func(s string, lit string, c cfg) ([]byte, error)
 }
 
+// wrapOf: paths whose output string is not the string under test itself but a longer text it is part of
+var wrapOf = map[string]func(clean string) string{
+	"marshal-time-zone-name": func(clean string) string { return "Sat, 03 Feb 2001 04:05:06 " + clean },
+}
+
 // scaffold: paths whose first output string is a fixed member name, not the string under test
-var scaffold = map[string]bool{"marshal-func-output": true, "marshal-value-field": true, "v1-string-tag": true}
+var scaffold = map[string]bool{"marshal-func-output": true, "marshal-value-field": true, "v1-string-tag": true, "marshal-time-zone-name": true}
 
 func encodeWith(c cfg, fn func(e *jsontext.Encoder) error, extra ...json.Options) ([]byte, error) {
 	var buf bytes.Buffer
@@ -426,6 +432,33 @@ var paths = []pathDef{
 	{"append-format", 'r', func(_, lit string, c cfg) ([]byte, error) {
 		return jsontext.AppendFormat(nil, obj(lit), c.opts()...)
 	}},
+	{"append-format-in-place", 'r', func(_, lit string, c cfg) ([]byte, error) {
+		// documented: dst and src may overlap - the source sits in the spare capacity of dst
+		src := obj(lit)
+		buf := make([]byte, len(src), 6*len(src)+64)
+		copy(buf, src)
+		return jsontext.AppendFormat(buf[:0], buf, c.opts()...)
+	}},
+	{"append-format-overlap-tail", 'r', func(_, lit string, c cfg) ([]byte, error) {
+		src := obj(lit)
+		buf := make([]byte, 3+len(src), 6*len(src)+64)
+		copy(buf, "[1,")
+		copy(buf[3:], src)
+		out, err := jsontext.AppendFormat(buf[:3], buf[3:], c.opts()...)
+		if err != nil {
+			return nil, err
+		}
+		return append(out, ']'), nil
+	}},
+	{"marshal-time-zone-name", 'g', func(s, _ string, c cfg) ([]byte, error) {
+		// a zone abbreviation is an arbitrary Go string that named layouts copy into the output
+		if s == "" {
+			return json.Marshal(struct{ T string }{"Sat, 03 Feb 2001 04:05:06 "}, c.opts()...) // (an empty name prints as an offset instead)
+		}
+		return json.Marshal(struct {
+			T time.Time `json:",format:RFC1123"`
+		}{time.Date(2001, 2, 3, 4, 5, 6, 0, time.FixedZone(s, 3600))}, c.opts(json.ExperimentalSupportFormatTag(true))...)
+	}},
 	{"v1-htmlescape", 'v', func(_, lit string, c cfg) ([]byte, error) {
 		var buf bytes.Buffer
 		v1.HTMLEscape(&buf, []byte(obj(lit)))
@@ -524,6 +557,9 @@ func judge(w *run.W, p *pathDef, s []byte, clean string, illFormed bool, lit str
 	collectStrings(tree, &lits)
 	if scaffold[p.name] && len(lits) > 0 {
 		lits = lits[1:]
+	}
+	if wrap := wrapOf[p.name]; wrap != nil {
+		clean = wrap(clean)
 	}
 	seen := 0
 	for _, l := range lits {
